@@ -124,59 +124,8 @@ class OpQuery:
         """returns (assumptions: [Bool], posts: [(label, Bool)])"""
         S, ctx, sp = self.S, self.ctx, self.spec
         assume = [ctx.is_zero(r) for r in self.roots]
-        pre_labels = []
-        for label, b in sp.get("pre", []):
-            assume.append(b)
-            pre_labels.append(label)
-        if sp.get("rc16"):
-            for i in range(4):
-                assume.append(S.v(S.hp[i]) < 2**16)
-            pre_labels.append("h0..h3 < 2^16 (range-checked over the b_range bus)")
-        self.pre_labels = pre_labels
-        posts = []
-        outs, consumed = sp["outputs"], sp["consumed"]
-        k = len(outs)
-        shift = k - consumed
-        assert shift in (-1, 0, 1), (self.vname, shift)
-        for i, o in enumerate(outs):
-            if o is specmod.FREE:
-                continue
-            posts.append((f"s{i}'", self.out_cond(S.n[i], o)))
-        b0v = S.v(S.b0)
-        for i in range(k, 16):
-            src = i - shift
-            if src <= 15:
-                posts.append((f"s{i}' = s{src}", ctx.eq(S.n[i], S.s[src])))
-            else:
-                posts.append(("s15' = 0 when depth is 16", z3.Implies(b0v == 16, S.v(S.n[15]) == 0)))
-        depth = sp.get("depth")
-        if depth == "call":
-            posts.append(("b0' = 16", S.v(S.b0n) == 16))
-        elif depth == "free":
-            pass
-        elif shift == 0:
-            posts.append(("b0' = b0", ctx.eq(S.b0n, S.b0)))
-        elif shift == 1:
-            posts.append(("b0' = b0 + 1", ctx.eq(S.b0n, S.b0 + 1)))
-            posts.append(("b1' = clk", ctx.eq(S.b1n, S.clk)))
-        else:
-            posts.append(("b0' = b0 - [b0 != 16]", z3.If(b0v == 16, S.v(S.b0n) == 16, ctx.eq(S.b0n, S.b0 - 1))))
-        posts.append(("clk' = clk + 1", ctx.eq(S.clkn, S.clk + 1)))
-        for label, b in sp.get("implied", []):
-            posts.append((f"implied: {label}", b))
-        for label, b in sp.get("extra", []):
-            posts.append((label, b))
-        return assume, posts
-
-    def out_cond(self, ncell, o):
-        ctx, S = self.ctx, self.S
-        if isinstance(o, Lin) or isinstance(o, int):
-            return ctx.eq(ncell, o)
-        if o[0] == "ite":
-            return z3.If(o[1], ctx.eq(ncell, o[2]), ctx.eq(ncell, o[3]))
-        if o[0] == "bool":
-            return o[1](ncell)
-        raise ValueError(o)
+        pre, posts, self.pre_labels = specmod.posts_from_spec(S, sp, rc16_assumed=True)
+        return assume + pre, posts
 
 
 def check_variant(meta, vname, r, job, rng=None):
